@@ -378,6 +378,8 @@ func (c *compiler) evalUpdateIndex(left, index, value interface{}) error {
 					if elemType != t {
 						err = fmt.Errorf("cannot use '%v' (untyped %s constant) as %s value in assignment", value, t, elemType)
 					}
+				} else if !val.Type().AssignableTo(elemType) {
+					err = fmt.Errorf("cannot use '%v' (%s) as %s value in assignment", value, val.Type(), elemType)
 				}
 				if err == nil && !rv.Index(i).CanSet() {
 					err = fmt.Errorf("cannot assign to an element of %T: it is not addressable", left)
@@ -641,6 +643,8 @@ func (c *compiler) arrayOperator(l interface{}, r interface{}, op string) (inter
 			if elemType != t {
 				err = fmt.Errorf("cannot append '%v' (untyped %s constant) as %s value in assignment", r, t, elemType)
 			}
+		} else if !reflect.TypeOf(r).AssignableTo(elemType) {
+			err = fmt.Errorf("cannot append '%v' (%T) as %s value in assignment", r, r, elemType)
 		}
 		if err == nil {
 			return reflect.Append(reflect.ValueOf(l), reflect.ValueOf(r)).Interface(), nil
